@@ -236,7 +236,12 @@ def replay_case(case, tag, rng, tier):
                     wa = math.acos(max(-1.0, min(1.0, c)))
                     if exc is not None or not (abs(float(ang) - wa) <= 1e-7 and -1e-12 <= float(ang) <= math.pi + 1e-12):
                         bad("C18.angle", "angle = %r, exact %r" % (exc["cls"] if exc else ang, wa), {"op": "angle", "type": tname})
-    # zero and unit vectors
+    # zero and unit vectors (also after a previously returned one was mutated in place)
+    if rng.random() < 0.2:
+        for nm in ("zero", "x_unit_vector", "y_unit_vector", "z_unit_vector"):
+            v, exc = call(getattr(Vector, nm))
+            if exc is None:
+                v[rng.randrange(3)] = 7
     for nm, want in (("zero", [0, 0, 0]), ("x_unit_vector", [1, 0, 0]), ("y_unit_vector", [0, 1, 0]), ("z_unit_vector", [0, 0, 1])):
         v, exc = call(getattr(Vector, nm))
         if exc is not None or list(v) != want:
